@@ -45,3 +45,11 @@ Print Assumptions C17_result.
 Theorem C17_late_connection_closed : forall rest delay n, fst (accept_loop (AConn true :: rest) delay n) = [CloseLate n].
 Proof. exact late_conn_closed. Qed.
 Print Assumptions C17_late_connection_closed.
+
+(* the three constants of the back-off are the ones Serve is written with (regenerated from server.go on every run):
+   first delay 5 ms, doubling, cap 1 s *)
+Require Import Generated.
+Theorem C17_backoff_constants :
+  gen_backoff = Some (5, 2, 1000)%N /\ forall d, next_delay d = next_delay_with 5 2 1000 d.
+Proof. split; [reflexivity|intros d; reflexivity]. Qed.
+Print Assumptions C17_backoff_constants.
